@@ -400,13 +400,14 @@ func (dq *Deque[T]) pop(it *element[T]) (out T, _ bool) {
 
 func (dq *Deque[T]) waitPop(ctx context.Context, direction dqDirection) (out T, _ error) {
 	for {
-		if err := dq.root.getNextOrPrevious(direction).wait(ctx, direction); err != nil {
-			return out, err
+		if it, ok := dq.pop(dq.root.getNextOrPrevious(direction)); ok {
+			return it, nil
 		}
 
-		it, ok := dq.pop(dq.root.getNextOrPrevious(direction))
-		if ok {
-			return it, nil
+		// the deque is empty (or closed): wait for the element
+		// next to the root to change.
+		if err := dq.root.wait(ctx, direction); err != nil {
+			return out, err
 		}
 	}
 }
